@@ -221,7 +221,7 @@ def tmpl_programs(res, tier, rnd):
         cls.setdefault(tmpl_class(t), []).append(t)
     n = 160 if tier == "thorough" else 24
     pick = []
-    share = {"reconvergent": n // 2, "nested+shared": n // 6, "nested": n // 8, "shared": n // 8}
+    share = {"reconvergent": (2 * n) // 3, "nested+shared": n // 8, "nested": n // 12, "shared": n // 12}
     for c, k in share.items():
         pick += rnd.sample(cls.get(c, []), min(k, len(cls.get(c, []))))
     rest = [t for t in ts if t not in pick]
@@ -240,8 +240,13 @@ def tmpl_class(t):
     # re-convergent dependency paths of different length: in T_i { T_j<T_m<A>> } the inner template T_m itself
     # instantiates the outer template T_j, so the nested instantiation depends on T_j directly and through its
     # argument; and some third template instantiates T_j too (it can settle T_j's result early or late)
+    # (only instantiations that pass the template parameter on count here: `T_j<Named>` has a concrete argument)
+    pinsts = {}
+    for i, o in enumerate(t, 1):
+        for x in ([o["j"]] if o["k"] in ("val", "ptr", "nest") else []) + ([o["m"]] if o["k"] == "nest" else []):
+            pinsts.setdefault(x, set()).add(i)
     for i, o in nested:
-        if o["j"] != o["m"] and o["m"] in insts.get(o["j"], ()) and insts.get(o["j"], set()) - {i, o["m"]}:
+        if o["j"] != o["m"] and o["m"] in pinsts.get(o["j"], ()) and pinsts.get(o["j"], set()) - {i, o["m"]}:
             return "reconvergent"
     if nested and any(len(insts.get(o["j"], ())) >= 2 for _, o in nested):
         return "nested+shared"
@@ -386,7 +391,10 @@ def run(res, tier, validate, report):
         if tmpl_class(fam["tmpl"]) in ("reconvergent", "nested+shared"):
             # the class where the relative order of independent templates decides who is popped first:
             # every order of the definitions, not a sample
-            os_ = os_[:2] + [o for o in perm_orders(fam) if o not in os_[:2]]
+            po = perm_orders(fam)
+            if len(po) < 4:      # pointers to later templates: no (or few) define-before-use orders
+                po += [o for o in perm_orders(fam, limit=24, fwd=True) if o not in po][:6 - len(po)]
+            os_ = os_[:2] + [o for o in po if o not in os_[:2]]
         cases = run_family(res, name, fam, os_)
         per[name] = (fam, cases)
         allcases += cases
